@@ -26,6 +26,7 @@ pub struct Proj {
     pub builds: Vec<PBuild>,
     pub sources: Vec<String>,
     pub defaults: Vec<String>,
+    pub has_generator: bool,
 }
 
 impl Proj {
@@ -137,6 +138,20 @@ pub fn gen_proj(rng: &mut Rng, allow_cycles: bool) -> Proj {
             p.defaults.push(out_names[j][0].clone());
         }
     }
+    // sometimes the manifest is itself generated (by a step whose inputs may be generated too)
+    if rng.chance(1, 4) {
+        let mut b = PBuild::default();
+        b.outs = vec!["build.ninja".into()];
+        b.n_explicit_outs = 1;
+        let k = rng.range(1, 2);
+        for _ in 0..k {
+            if rng.chance(1, 2) { b.expl.push(format!("s{}", rng.below(nsrc))); }
+            else { let j = rng.below(nb); b.impl_.push(out_names[j][0].clone()); }
+        }
+        if rng.chance(1, 4) { b.oo.push(out_names[rng.below(nb)][0].clone()); }
+        p.builds.push(b);
+        p.has_generator = true;
+    }
     p
 }
 
@@ -194,8 +209,10 @@ pub fn effects_of(st: &v::LoadState) -> HashMap<String, CmdEffect> {
     for i in 0..nb {
         let b = &g.builds[v::BuildId::from(i)];
         if let Some(cmd) = &b.cmdline {
-            let outs = b.outs().iter().map(|&f| g.file(f).name.clone()).collect();
-            m.insert(cmd.clone(), CmdEffect { outs, content: cmd.as_bytes().to_vec(), ..Default::default() });
+            let outs: Vec<String> = b.outs().iter().map(|&f| g.file(f).name.clone()).collect();
+            // a step that regenerates the manifest rewrites the same text (new mtime)
+            let content = if outs.iter().any(|o| o == "build.ninja") { std::fs::read("build.ninja").unwrap_or_default() } else { cmd.as_bytes().to_vec() };
+            m.insert(cmd.clone(), CmdEffect { outs, content, ..Default::default() });
         }
     }
     m
@@ -235,7 +252,7 @@ pub fn run(ctx: &mut Ctx) {
                     }
                 }
                 for b in &proj.builds { for o in &b.outs {
-                    if ctx.rng.chance(1, 6) { let _ = std::fs::remove_file(o); }
+                    if o != "build.ninja" && ctx.rng.chance(1, 6) { let _ = std::fs::remove_file(o); }
                 }}
             }
             let st = match std::panic::catch_unwind(|| v::load_read("build.ninja")) {
@@ -272,24 +289,15 @@ pub fn run(ctx: &mut Ctx) {
             let mut stats: Vec<&str> = vec![];
             ctx.emit(&case, || {
                 let (res, evs) = invoke(options, None, targets, script);
-                let (n, toks) = events_to_tokens(&evs, &["U ", "B ", "F "]);
+                let (n, toks) = events_to_tokens(&evs, &["U ", "B ", "F ", "R"]);
                 let res = fix_result(&res);
-                // An error raised while the wanted set is being collected (cycle, unknown
-                // target) aborts before any command can start; the model does not keep the
-                // partial marking, so only the diagnostic is compared for those.
-                let want_phase_err = res.starts_with(&format!("err {}", hex(b"dependency cycle")[..30].to_string()))
-                    || res.starts_with(&format!("err {}", hex(b"unknown path requested")));
-                if want_phase_err {
-                    let started = evs.iter().any(|e| matches!(e, v::Event::Note(t) if t.starts_with("B ")));
-                    format!("{} T 0{}", res, if started { " STARTED-BEFORE-WANT-ERROR" } else { "" })
-                } else {
-                    format!("{} T {}{}", res, n, toks)
-                }
+                format!("{} T {}{}", res, n, toks)
             });
             let _ = &mut stats;
             produced += 1;
             ctx.count("invocations");
             if allow_cycles { ctx.count("allow_cycles"); }
+            if proj.has_generator { ctx.count("with_manifest_generator"); }
             if spec.k.is_some() { ctx.count("with_k"); }
             if spec.fail_pct > 0 { ctx.count("with_failures"); }
             if !proj.pools.is_empty() { ctx.count("with_pools"); }
